@@ -187,13 +187,13 @@ where
                     print_use_target_wildcard(children, ctx, allocator)
                 }
                 SyntaxKind::VisibilityPub => print_visibility_pub(children, ctx, allocator),
-                SyntaxKind::MatchExpr
-                | SyntaxKind::MatchArm
-                | SyntaxKind::MatchArmList
+                SyntaxKind::MatchExpr => print_match_expr(children, ctx, allocator),
+                SyntaxKind::MatchArmList => print_match_arm_list(children, ctx, allocator),
+                SyntaxKind::MatchArm
                 | SyntaxKind::MatchPattern
                 | SyntaxKind::ConstructorPattern
                 | SyntaxKind::TypeDecl
-                | SyntaxKind::VariantDef => print_leaf_children(children, ctx, allocator),
+                | SyntaxKind::VariantDef => print_spaced_children(children, ctx, allocator),
                 SyntaxKind::Error => allocator.text("/* error */"),
             }
         }
@@ -322,6 +322,114 @@ where
         .map(|&child| cst_to_doc(child, ctx, allocator))
         .collect();
     allocator.concat(docs)
+}
+
+/// Kind of a child if it is a token.
+fn child_token_kind(child: GreenNodeId, ctx: &PrintContext) -> Option<TokenKind> {
+    match ctx.arena.get(child) {
+        mimium_lang::compiler::parser::green::GreenNode::Token { token_index, .. } => {
+            Some(ctx.tokens[*token_index].kind)
+        }
+        _ => None,
+    }
+}
+
+/// Print the children separated by single spaces (none after `(`, none before `)` and `,`).
+/// Used for nodes made of several tokens that have no dedicated layout: whatever the layout,
+/// adjacent words must stay apart (`match s {`, `type Shape = Circle(float) | ..`).
+fn print_spaced_children<'a, D, A>(
+    children: &[GreenNodeId],
+    ctx: &PrintContext,
+    allocator: &'a D,
+) -> DocBuilder<'a, D, A>
+where
+    D: DocAllocator<'a, A>,
+    D::Doc: Clone + Pretty<'a, D, A>,
+    A: Clone,
+{
+    let mut result = allocator.nil();
+    let mut first = true;
+    let mut glue_next = false;
+    for &child in children.iter() {
+        let kind = child_token_kind(child, ctx);
+        let glue_before = matches!(kind, Some(TokenKind::Comma) | Some(TokenKind::ParenEnd))
+            || (matches!(kind, Some(TokenKind::ParenBegin)) && !first);
+        if !first && !glue_next && !glue_before {
+            result = result.append(allocator.text(" "));
+        }
+        result = result.append(cst_to_doc(child, ctx, allocator));
+        glue_next = matches!(kind, Some(TokenKind::ParenBegin));
+        first = false;
+    }
+    result
+}
+
+/// Print `match scrutinee { arms }` with one arm per line.
+fn print_match_expr<'a, D, A>(
+    children: &[GreenNodeId],
+    ctx: &PrintContext,
+    allocator: &'a D,
+) -> DocBuilder<'a, D, A>
+where
+    D: DocAllocator<'a, A>,
+    D::Doc: Clone + Pretty<'a, D, A>,
+    A: Clone,
+{
+    let mut result = allocator.nil();
+    let mut first = true;
+    for &child in children.iter() {
+        match child_token_kind(child, ctx) {
+            Some(TokenKind::BlockEnd) => {
+                result = result
+                    .append(allocator.hardline())
+                    .append(cst_to_doc(child, ctx, allocator));
+            }
+            _ => {
+                let is_arm_list = matches!(
+                    ctx.arena.get(child),
+                    mimium_lang::compiler::parser::green::GreenNode::Internal {
+                        kind: SyntaxKind::MatchArmList,
+                        ..
+                    }
+                );
+                if is_arm_list {
+                    result = result
+                        .append(cst_to_doc(child, ctx, allocator).nest(get_indent_size() as isize));
+                } else {
+                    if !first {
+                        result = result.append(allocator.text(" "));
+                    }
+                    result = result.append(cst_to_doc(child, ctx, allocator));
+                }
+            }
+        }
+        first = false;
+    }
+    result
+}
+
+/// Print the arms of a match, each on its own line; separators stay attached to the arm before.
+fn print_match_arm_list<'a, D, A>(
+    children: &[GreenNodeId],
+    ctx: &PrintContext,
+    allocator: &'a D,
+) -> DocBuilder<'a, D, A>
+where
+    D: DocAllocator<'a, A>,
+    D::Doc: Clone + Pretty<'a, D, A>,
+    A: Clone,
+{
+    let mut result = allocator.nil();
+    for &child in children.iter() {
+        if child_token_kind(child, ctx).is_some() {
+            result = result.append(cst_to_doc(child, ctx, allocator));
+        } else {
+            result = result
+                .append(allocator.hardline())
+                .append(cst_to_doc(child, ctx, allocator));
+        }
+    }
+    result
 }
 
 // ============================================================================
